@@ -27,7 +27,7 @@ FRAME_IFACES = ['iter_array', 'iter_array_items', 'iter_series', 'iter_series_it
                 'iter_window_array', 'iter_window_array_items', 'iter_group_labels', 'iter_group_labels_items']
 BATCH_STEPS = ['apply', 'apply_items', 'apply_series', 'apply_element', 'iloc', 'loc_cols', 'mul', 'sum', 'getitem', 'head',
                'apply_except', 'apply_items_except', 'rename', 'sort_index', 'transpose', 'cumsum', 'drop', 'min', 'neg', 'loc_rows', 'tail',
-               'sum_noskip', 'mean', 'max', 'apply_none', 'apply_none_except', 'apply_grow', 'rsub', 'rmul', 'rfloordiv', 'apply_list']
+               'sum_noskip', 'mean', 'max', 'apply_none', 'apply_none_except', 'apply_grow', 'rsub', 'rmul', 'rfloordiv', 'apply_list', 'drop_getitem', 'drop_loc']
 
 
 def gen_cells(ch, nr, j, kind):
@@ -610,6 +610,10 @@ class PoolWorld(WorldBase):
                 b = b.drop.iloc[0]
             elif step == 'neg':
                 b = -b
+            elif step == 'drop_getitem':
+                b = b.drop['A']  # by column label
+            elif step == 'drop_loc':
+                b = b.drop.loc[10]  # by row label
             elif step == 'rsub':
                 b = 1000 - b  # reflected forms: the operator object itself crosses the pool boundary
             elif step == 'rmul':
@@ -760,6 +764,10 @@ class PoolWorld(WorldBase):
                         c = c.drop.iloc[0]
                     elif step == 'neg':
                         c = -c
+                    elif step == 'drop_getitem':
+                        c = c.drop['A']
+                    elif step == 'drop_loc':
+                        c = c.drop.loc[10]
                     elif step == 'rsub':
                         c = 1000 - c
                     elif step == 'rmul':
